@@ -104,6 +104,11 @@ CLAIMED = {
         text="exploration driven and judged by a model: TLC checks the frame condition and stack disjointness on the abstract spec, and validates the records of random multi-task scripts (call frames with canaries, task-datum writes, yields, blocking waits, all stack-size classes touched to their configured size, guard pages on/off, recycled thread objects left dirty by late interruptions and data) against it: a task must observe exactly its own state on whichever worker it resumes, live stacks must be disjoint, and a task on a recycled object must start clean",
         note="the context-switch assembly and stack memory are exercised along generated behaviours, not proved; one open finding (FP control state not saved by the Linux context switch) is exercised by dedicated runs only",
         design="5/C12"),
+    "C03": dict(
+        technique="TLA+ denotational spec SenderSem (completion-signal semantics of the adaptors) whose terms and denotations TLC enumerates (SenderCases) and replays on the real adaptors; fine-grained spec SharedStateImpl of the split/ensure_started shared state (flag, lock, continuation list) model-checked by TLC",
+        text="model-based testing in the spec->implementation direction: TLC enumerates all 1228 sender terms up to depth 3 over value/error/stopped leaves and then/let_value/let_error/continues_on/ensure_started/split (1 and 2 consumers)/drop_operation_state/when_all with the set of completion signals the spec admits; every term is built from type-erased stages and run on the real adaptors with leaves completing inline, from another thread or on the pool, and the connected receiver must see exactly one signal, on an admitted channel, with the admitted payload, with every payload object destroyed exactly once; TLC proves on SharedStateImpl that a continuation added concurrently with the predecessor's completion is run exactly once under every interleaving (and that publishing the flag after the lock hand-shake loses it), and the shared-state terms are re-run hundreds of times with the consumer's start swept across the predecessor's completion and delays injected at the ss.* hooks",
+        note="sequential consistency in the model; schedules of the real adaptors are sampled; terms up to depth 3 with one value type; stop requests travelling upstream through stop tokens are not part of the terms",
+        design="5/C03"),
 }
 
 NOT_YET = {}
